@@ -159,4 +159,58 @@ def run(tier, seed, replay):
     rep.cov["samples"] = [dict(request=l, implementation=a, model=b) for l, a, b in list(zip(lines, impl, model))[len(corpus) + n // 3 - 1: len(corpus) + n // 3 + 2] + list(zip(lines, impl, model))[-2:]]
     rep.assumptions = ["debug-build semantics (overflow checks and debug_assert on); release builds differ only on inputs the theorems exclude",
                        "End-to-end part of C12 (MutateTickReceived fires once, only when all messages of the tick were applied) is checked in the sim correspondence of C12e/C10 runs, see DESIGN.md"]
+    # whole apps across the 2^32 wrap of the server tick (implementation only: the Layer 1 model starts at tick 0): a
+    # long-running server mutates an entity every tick, everything is delivered in order; every tick must be reported as
+    # received exactly once, the entity's history must contain it and the mutation of that tick must have been applied
+    import simlib
+    rc, out = build_harness(["sim"])
+    if rc == 0 and not oracle_fail:
+        wrap_scripts = []
+        for k in range(6 if tier == "quick" else 60):
+            t0 = 2**32 - rng.randrange(3, 40)
+            lines = ["cfg policy=all auth=none track=1 nclients=1 timeout=10000 tick0=%d" % t0, "start", "sframe 0 10", "connect 0 1200",
+                     "sop spawn 1 1 0=1 1=2", "sop spawn 2 1 0=3", "sframe 1 16", "deliver 0 s2c 0 all", "deliver 0 s2c 1 all", "cframe 0", "deliver 0 c2s 0 all"]
+            for j in range(rng.randrange(45, 80)):
+                lines.append("sop mutate 1 %d=%d" % (j % 2, 100 + j))
+                if j % 7 == 3:
+                    lines.append("sop mutate 2 0=%d" % (500 + j))
+                lines += ["sframe 1 16", "deliver 0 s2c 0 all", "deliver 0 s2c 1 all", "cframe 0", "deliver 0 c2s 0 all"]
+            wrap_scripts.append(lines)
+        allw = [l for sc in wrap_scripts for l in sc]
+        blocks = simlib.run_impl(allw)
+        expect, seen_ticks, cur_tick = {}, {}, None
+        for i, (l, blk) in enumerate(zip(allw, blocks)):
+            t = l.split()
+            if t[0] == "cfg":
+                expect, seen_ticks, cur_tick = {}, {}, None
+            if any(x.startswith("PANIC") or x.startswith("dead") for x in blk):
+                oracle_fail.append(dict(request=l, implementation=blk, why="a side panicked while the server tick crossed 2^32"))
+                break
+            if t[0] == "sop" and t[1] == "mutate":
+                expect[(int(t[2]), int(t[3].split("=")[0]))] = t[3].split("=")[1]
+            if t[0] == "sframe":
+                for x in blk:
+                    if x.startswith("srv "):
+                        cur_tick = int(x.split("tick=")[1].split()[0])
+            if t[0] == "cframe":
+                for x in blk:
+                    if x.startswith("tickrecv "):
+                        for tk in x.split()[2].split(","):
+                            seen_ticks[tk] = seen_ticks.get(tk, 0) + 1
+                            if seen_ticks[tk] > 1:
+                                oracle_fail.append(dict(request=l, implementation=blk, why="tick %s reported as received twice" % tk))
+                    if x.startswith("cli "):
+                        ents = x.split("ents=")[1].split()[0]
+                        for (e, kk), v in expect.items():
+                            want = "%d=%s" % (kk, v)
+                            ent = [p_ for p_ in ents.split(";") if p_.startswith("%d:" % e)]
+                            if not ent or want not in ent[0].split(":")[-1].split("+"):
+                                oracle_fail.append(dict(request=l, script=allw[max(0, i - 30):i + 1][-12:], implementation=blk, server_tick=cur_tick,
+                                                        why="with every message delivered in order the client does not hold entity %d kind %d = %s after the frame of server tick %s "
+                                                            "(the tick is reported as received / confirmed although its mutation was not applied)" % (e, kk, v, cur_tick)))
+                                break
+                if oracle_fail:
+                    break
+        rep.cov["wrap_runs"] = dict(scripts=len(wrap_scripts), steps=len(allw), rule="real server + client across the 2^32 wrap of ServerTick, lock-step delivery, tracking enabled")
+        rep.cov["evaluations"] = rep.cov.get("evaluations", 0) + len(wrap_scripts)
     return conclude(rep, proofs_ok, oracle_fail, diverged, "RV.Tick.{RepliconTick,ConfirmHistory,MutateTicks}")
